@@ -2,7 +2,8 @@
 (`create_task_batches` -> `run_scheduling_solver` with HiGHS -> `create_task_mapping`) run on small instances; ops =
 the instance as read back from the real core + the solver's solution + the placement; outs = the batches and the MILP
 as the real code built them (recorded by hooks), the ids `take_tasks` popped, the queues left, and the verdicts
-feasible / optimal / fragment / C15 predicate, recomputed by the Lean model."""
+feasible / optimal / fragment / C15 predicate, recomputed by the Lean model. Request classes range over two resource
+kinds (cpus + gpus), workers are heterogeneous (notes/sched.md, notes/sched2.md)."""
 
 PROPS = {
     "C15": {
@@ -17,6 +18,9 @@ PROPS = {
             "HqModel.C15.c15_counterexample",
             "HqModel.C15.c15_counterexample_two_workers",
             "HqModel.C15.c15_counterexample_weights",
+            "HqModel.C15.c15_F1_two_resources",
+            "HqModel.C15.c15_gap_two_resources",
+            "HqModel.C15.c15_counterexample_two_resources",
         ],
         "parts": [{
             "component": "sched", "driver": "hqm-sched",
@@ -28,21 +32,31 @@ PROPS = {
         }],
         "assumptions": [
             "c15_partial_F is PARTIAL: PriorityRespecting is proved for the fragment F = F1 (at most one request class with ready "
-            "tasks, any cluster) u F2 (one worker, at most two such classes, default class weights, at most 32 priority levels) only; outside F the property "
-            "is false for the code as it is (c15_counterexample, c15_counterexample_two_workers, c15_counterexample_weights; "
-            "KNOWN_FINDINGS F7)",
+            "tasks; any cluster, any needs over the two resource kinds: c15_F1_two_resources) u F2 (one worker, at most two such "
+            "classes, default class weights, at most 32 priority levels, AND the explicit hypothesis CpuOnly: the classes with "
+            "ready tasks ask for cpus only - the worker may have gpus and running tasks may use them) only; outside F the "
+            "property is false for the code as it is (c15_counterexample, c15_counterexample_two_workers, "
+            "c15_counterexample_weights, and c15_counterexample_two_resources: the shape of F2 with a class that also asks for "
+            "gpus; KNOWN_FINDINGS F7)",
             "c15_queue_order* cover queues without a prefill set (proactive filling is off in C15's quantifier and in the generator); "
             "the hash-ordered drain of a non-empty prefill set is validated by Queue.takeTasks but not covered by a theorem",
             "HiGHS is not modelled: its solution is an input of the model; that it is feasible and optimal for the modelled "
             "MILP is assumed by the theorems and checked by exhaustive enumeration of the integer box on every generated instance "
             "(out-tags feasible/optimal); theorems quantify over EVERY optimal solution, so any tie-break of the solver is covered",
-            "objective weights are f64 in the code and exact rationals (scaled integers) in the model; the harness checks per "
-            "variable that the recorded f64 weight times the common denominator is the model's integer up to 1e-4; instances "
-            "are kept small enough (sum of free cpus * workers < 100) that the MIP gap tolerance of HiGHS (1e-4 relative) is "
-            "below the smallest objective difference",
-            "quantifier of the model: single-node single-variant cpu-only request classes in whole cpus, no worker time limits, "
-            "min_utilization 0, one worker group, proactive filling off (no prefill set); multi-variant gap computation "
-            "(compute_gap_resources, which calls the LP solver) and multi-node rows are outside the model",
+            "objective weights are f64 in the code and exact rationals (scaled integers, common denominator max G1 1 * max G2 1 * "
+            "workers * 10^6 with G = free amount of a kind in the cluster) in the model; the harness checks per variable that the "
+            "recorded f64 weight times the denominator is the model's integer up to 1e-4 absolute + 1e-12 relative (with two "
+            "kinds the denominator exceeds 2^53, an exact integer comparison of f64 values is no longer possible; a wrong weight "
+            "formula is off by percents); with two kinds the smallest objective difference (about 1/(G1*G2*workers*100) in "
+            "whole units) can be below the MIP gap tolerance of HiGHS (1e-4 relative): that HiGHS nevertheless returned an exact "
+            "optimum is checked per instance by the exhaustive enumerations (out-tag optimal; 0 exceptions in all runs)",
+            "quantifier of the model and of the generator: single-node single-variant request classes over TWO resource kinds "
+            "(cpus >= 1 and gpus >= 0, whole units), 1-3 workers with heterogeneous (cpus, gpus) totals (gpus may be absent), "
+            "idle or partly busy with running tasks of classes inside or outside the ready queues, some rejected (blocked) "
+            "classes, up to 8 priority levels, no worker time limits, min_utilization 0, one worker group, proactive filling "
+            "off (no prefill set), solver status optimal; a third resource kind, 'all' requests, fractional amounts, "
+            "multi-variant gap computation (compute_gap_resources, which calls the LP solver) and multi-node rows are outside "
+            "the model",
             "the scheduling model M7 (lean/HqModel/Sched/*.lean) is hand-written from batches.rs/solver.rs/gap.rs/mapping.rs; it "
             "is tied to the code only by the sampled correspondence of this check (batches, variables, weights, rows, taken ids "
             "compared per instance)",
